@@ -153,6 +153,7 @@ func (t *fnTrans) contractReturn(in *ssa.Return, rs []string) {
 			}
 		}
 	}
+	t.methodInvReturn(in)
 	// objects with lock-guarded (foreign) invariants that were allocated here must satisfy them
 	// when the function returns, whoever ends up holding them
 	for _, b := range t.fn.Blocks {
